@@ -1,4 +1,5 @@
 import json
+import gfapy
 from copy import deepcopy
 
 class Cloning:
@@ -11,7 +12,9 @@ class Cloning:
     To achieve this, all reference fields are copied in their string
     representation.
     All other fields are copied as they are, and a deep copy is done for
-    arrays, strings and JSON fields.
+    arrays, strings, JSON fields, oriented identifiers which are not
+    references (e.g. the external field of F lines) and multiple values of
+    header tags.
 
     Returns
     -------
@@ -21,6 +24,10 @@ class Cloning:
     for k,v in self._data.items():
       if k in self.__class__.REFERENCE_FIELDS:
         data_cpy[k] = self.field_to_s(k)
+      elif isinstance(v, gfapy.FieldArray):
+        data_cpy[k] = gfapy.FieldArray(v.datatype, deepcopy(list(v)))
+      elif isinstance(v, gfapy.OrientedLine):
+        data_cpy[k] = gfapy.OrientedLine(v.name, v.orient)
       elif self._field_datatype(k) == "J":
         data_cpy[k] = json.loads(json.dumps(v))
       elif isinstance(v, list) or isinstance(v, str):
@@ -30,5 +37,8 @@ class Cloning:
     cpy = self.__class__(data_cpy, vlevel = self.vlevel,
                          virtual = self.virtual, version = self.version)
     cpy._datatype = self._datatype.copy()
+    if hasattr(self, "_positional_fieldnames"):
+      # custom records: the names of the positional fields are per instance
+      cpy._positional_fieldnames = list(self._positional_fieldnames)
     # cpy._refs and cpy._gfa are not set, so that the cpy is disconnected
     return cpy
